@@ -84,15 +84,15 @@ FAMILIES = {
     "C33": ["aio"],
     "C31": ["evloop"],
     "C34": ["evloop", "periodic"],
-    "C14": ["early", "op", "srcfac", "own", "class", "subscribe", "tramp"],
-    "C02": ["own", "class", "subscribe", "compose"],
-    "C03": ["own", "class", "subscribe", "compose", "srcfac"],
+    "C14": ["early", "op", "srcfac", "srcwire", "own", "class", "subscribe", "tramp"],
+    "C02": ["own", "class", "subscribe", "compose", "monitor", "refcount"],
+    "C03": ["own", "class", "subscribe", "compose", "srcfac", "monitor", "refcount"],
     "C43": ["lockset"],
     "C42": ["catchsched"],
     "C09": ["guard", "op"],
     "C30": ["tramp"],
     "C35": ["periodic", "catchsched"],
-    "C37": ["srcfac"],
+    "C37": ["srcfac", "srcwire"],
     "C10": ["seqcomp", "op"],
     "C24": ["mcast"],
     "C22": ["replay", "schedobs"],
@@ -167,6 +167,32 @@ def _property_files(prop):
             if prop in c.props:
                 files.add(c.file)
     return sorted(files)
+
+
+def _class_files(prop):
+    """the property's anchor files that define classes (schedulers, subjects, disposables, observers, ...)"""
+    import ast
+    import json
+    import os
+
+    here = os.path.dirname(os.path.dirname(os.path.abspath(__file__)))
+    repo = os.environ.get("RXVC_REPO", "/repo")
+    out = []
+    try:
+        for ln in open(os.path.join(here, "properties.jsonl")):
+            d = json.loads(ln)
+            if d["id"] != prop:
+                continue
+            for f in d["anchors"]["files"]:
+                try:
+                    t = ast.parse(open(os.path.join(repo, f)).read())
+                except (OSError, SyntaxError):
+                    continue
+                if any(isinstance(n, ast.ClassDef) for n in ast.walk(t)):
+                    out.append(f)
+    except OSError:
+        pass
+    return sorted(out)
 
 
 def callee_units(prop, have):
@@ -283,6 +309,8 @@ def units_for(prop, tier):
         us.append({"runner": "opacity", "prop": prop, "id": f"opacity-conditions/{prop}"})
     if "guard" in fams:
         us.append({"runner": "guard", "prop": prop, "id": f"guard-conditions/{prop}"})
+    if "srcwire" in fams:
+        us.append({"runner": "srcwire", "prop": prop, "id": "reactivex/observable/repeat.py::repeat_value_"})
     if "catchsched" in fams:
         us.append({"runner": "catchsched", "prop": prop, "id": "reactivex/scheduler/catchscheduler.py::CatchScheduler"})
     if "lockset" in fams:
@@ -304,6 +332,10 @@ def units_for(prop, tier):
         us.append({"runner": "frame", "mode": "local", "prop": prop, "files": _property_files(prop), "id": f"state-allocation/{prop}"})
         # ... and about the implementation functions: the public entry points reach them with the very arguments (pubapi.py)
         us.append({"runner": "pubapi", "prop": prop, "files": _property_files(prop), "id": f"public-entry-points/{prop}"})
+    cf = _class_files(prop)
+    if cf:
+        # the class contracts speak about one object: no state in class-level containers shared by all instances (frame.run_class_state)
+        us.append({"runner": "frame", "mode": "classes", "prop": prop, "files": cf, "id": f"instance-state/{prop}"})
     for u in us:
         u["tier"] = tier
     return us
